@@ -1,6 +1,7 @@
-(* C10 — proofs about the reader models: panic freedom (for every byte string) where it
-   holds, the exact guards under which it holds where it does not, refutations with concrete
-   witnesses (replayed on the real readers by the check), and what a successful lookup returns. *)
+(* C10 — proofs about the reader models (the code after the repairs of the table-index, journal
+   record and manifest findings): panic freedom for EVERY byte string, what a successful lookup
+   returns, regression examples for the repaired witnesses, and the two refutations that remain
+   (no content-hash check on reads). *)
 From Coq Require Import NArith Arith List Bool Lia ZifyN ZifyNat ZifyBool.
 From Dolt Require Import Base.Str Gen.C10Consts C10.Model C10.Spec C10.Corr.
 Import ListNotations.
@@ -12,8 +13,10 @@ Lemma consts_pinned :
   /\ magic_number = magic /\ (forall c, index_size c + footer_size = 28 * c + 20)
   /\ (forall c, lengths_offset c = 12 * c) /\ (forall c, suffixes_offset c = 16 * c)
   /\ journal_rec_len_sz = 4 /\ journal_rec_checksum_sz = 4 /\ journal_rec_addr_sz = 20 /\ journal_rec_timestamp_sz = 8
+  /\ journal_rec_kind_sz = 1
   /\ kind_journal_rec_tag = 1 /\ addr_journal_rec_tag = 2 /\ payload_journal_rec_tag = 3 /\ timestamp_journal_rec_tag = 4
-  /\ root_hash_journal_rec_kind = 1 /\ manifest_prefix_len = 5.
+  /\ root_hash_journal_rec_kind = 1 /\ manifest_prefix_len = 5
+  /\ root_hash_record_size_go = root_hash_record_size.
 Proof.
   repeat split; try reflexivity; intro c; unfold index_size, footer_size, lengths_offset, suffixes_offset; lia.
 Qed.
@@ -28,20 +31,6 @@ Lemma sub_sub_prefix b off n k : k <= n -> sub (sub b off n) 0 k = sub b off k.
 Proof.
   unfold sub. intro H. change (N.to_nat 0) with 0%nat. cbn [skipn].
   rewrite firstn_firstn. f_equal. lia.
-Qed.
-
-Lemma blen_take_pad n l : blen (take_pad n l) = n.
-Proof.
-  unfold blen, take_pad. rewrite app_length, firstn_length, repeat_length. lia.
-Qed.
-
-Lemma in_below k x : In x (below k) <-> (N.to_nat x < k)%nat.
-Proof.
-  induction k as [|k IH]; cbn [below].
-  - split; [intros [] | lia].
-  - rewrite in_app_iff, IH. cbn [In]. split.
-    + intros [H | [H | []]]; lia.
-    + intro H. destruct (Nat.eq_dec (N.to_nat x) k) as [E | E]; [right; left; lia | left; lia].
 Qed.
 
 (* =====================================================================
@@ -73,75 +62,52 @@ Proof.
   - exfalso. exact (parse_table_index_np _ E).
 Qed.
 
-Section Guarded.
+Section Table.
 Variable crc : bytes -> N.
 Variable t : tindex.
-Hypothesis Hord : ordinals_ok t = true.
-Hypothesis Hlen : lengths_ok t = true.
-
-Lemma ord_lt idx : idx < ti_count t -> ord_at t idx < ti_count t.
-Proof.
-  intro H. unfold ordinals_ok in Hord. rewrite forallb_forall in Hord.
-  specialize (Hord idx). rewrite in_below in Hord. apply N.ltb_lt, Hord. lia.
-Qed.
-
-Lemma len_ok ord : ord < ti_count t -> 4 <= entry_len t ord <= iter_buf_size.
-Proof.
-  intro H. unfold lengths_ok in Hlen. rewrite forallb_forall in Hlen.
-  specialize (Hlen ord). rewrite in_below in Hlen.
-  assert (Hx : (N.to_nat ord < N.to_nat (ti_count t))%nat) by lia.
-  apply Hlen in Hx. apply andb_true_iff in Hx as [H1 H2]. lia.
-Qed.
-
-Lemma suffix_at_ok ord : ord < ti_count t -> exists s, suffix_at t ord = Ok s.
-Proof.
-  intro H. unfold suffix_at.
-  destruct (12 * ord + 12 <=? 12 * ti_count t + 20) eqn:E; [eexists; reflexivity | lia].
-Qed.
 
 Lemma offset_at_ok ord : ord < ti_count t -> offset_at t ord = Ok (nth (N.to_nat ord) (ti_offsets t) 0).
 Proof.
   intro H. unfold offset_at. destruct (ord <? ti_count t) eqn:E; [reflexivity | lia].
 Qed.
 
-Lemma get_index_entry_ok ord : ord < ti_count t ->
-  exists off, get_index_entry t ord = Ok (off, entry_len t ord).
+(* getIndexEntry is only ever reached with ord < count, where it cannot panic *)
+Lemma get_index_entry_ok ord : ord < ti_count t -> exists e, get_index_entry t ord = Ok e.
 Proof.
-  intro H. unfold get_index_entry, entry_len.
+  intro H. unfold get_index_entry.
   destruct (ord =? 0) eqn:E0; cbn [bind].
   - rewrite (offset_at_ok _ H). cbn [bind]. eexists; reflexivity.
   - assert (H1 : ord - 1 < ti_count t) by lia.
     rewrite (offset_at_ok _ H1). cbn [bind]. rewrite (offset_at_ok _ H). cbn [bind]. eexists; reflexivity.
 Qed.
 
+Lemma suffix_at_inv ord : match suffix_at t ord with Panic => False | Ok _ => ord < ti_count t | Err => True end.
+Proof.
+  unfold suffix_at. destruct (ord <? ti_count t) eqn:E; [lia | exact I].
+Qed.
+
 Lemma match_loop_np fuel h idx :
   match match_loop fuel t h idx with
   | Panic => False
-  | Ok (Some i) => i < ti_count t
+  | Ok (Some i) => ord_at t i < ti_count t
   | _ => True
   end.
 Proof.
   revert idx. induction fuel as [|f IH]; intro idx; cbn [match_loop]; [exact I|].
-  destruct ((idx <? ti_count t) && (prefix_at t idx =? addr_prefix h)) eqn:E; [|exact I].
-  apply andb_true_iff in E as [E1 E2].
-  assert (Hi : idx < ti_count t) by lia.
-  destruct (suffix_at_ok _ (ord_lt _ Hi)) as [s Hs]. rewrite Hs. cbn [bind].
-  destruct (beq_bytes s (addr_suffix h)); [exact Hi | apply IH].
+  destruct ((idx <? ti_count t) && (prefix_at t idx =? addr_prefix h)); [|exact I].
+  pose proof (suffix_at_inv (ord_at t idx)) as Hs.
+  destruct (suffix_at t (ord_at t idx)) as [s| |]; cbn [bind]; [| exact I | contradiction].
+  destruct (beq_bytes s (addr_suffix h)); [exact Hs | apply IH].
 Qed.
 
-Lemma lookup_np h :
-  match lookup t h with
-  | Panic => False
-  | Ok (Some (_, len)) => 4 <= len <= iter_buf_size
-  | _ => True
-  end.
+Lemma lookup_np h : lookup t h <> Panic.
 Proof.
   unfold lookup.
   pose proof (match_loop_np (N.to_nat (ti_count t)) h (find_prefix t (addr_prefix h))) as M.
-  destruct (match_loop _ t h _) as [[i|]| |]; cbn [bind]; try exact I; [|contradiction].
-  destruct (ord_at t i =? ti_count t); [exact I|].
-  destruct (get_index_entry_ok _ (ord_lt _ M)) as [off Hg]. rewrite Hg. cbn [bind].
-  apply len_ok, ord_lt, M.
+  destruct (match_loop _ t h _) as [[i|]| |]; cbn [bind]; try discriminate; [|contradiction].
+  destruct (ord_at t i =? ti_count t); [discriminate|].
+  destruct (get_index_entry_ok _ M) as [e Hg]. rewrite Hg. cbn [bind].
+  destruct (snd e <? 4); discriminate.
 Qed.
 
 Lemma has_np h : has t h <> Panic.
@@ -150,9 +116,9 @@ Proof.
   destruct (lookup t h) as [[e|]| |]; cbn [bind]; try discriminate. contradiction.
 Qed.
 
-Lemma ncc_np buff : 4 <= blen buff -> new_compressed_chunk crc buff <> Panic.
+Lemma ncc_np buff : new_compressed_chunk crc buff <> Panic.
 Proof.
-  intro H. unfold new_compressed_chunk. destruct (blen buff <? 4) eqn:E; [lia|].
+  unfold new_compressed_chunk. destruct (blen buff <? 4); [discriminate|].
   destruct (_ =? _); discriminate.
 Qed.
 
@@ -160,14 +126,19 @@ Lemma get_np file h : get crc file t h <> Panic.
 Proof.
   unfold get. pose proof (lookup_np h) as L.
   destruct (lookup t h) as [[[off len]|]| |]; cbn [bind]; try discriminate; [|contradiction].
-  destruct ((0 <? len) && ((blen file <? off + len) || (9223372036854775808 <=? off))) eqn:E; [discriminate|].
-  assert (Hb : off + len <= blen file).
-  { apply andb_false_iff in E as [E | E]; [lia|]. apply orb_false_iff in E as [E1 E2]. lia. }
-  pose proof (ncc_np (sub file off len)) as Hn. rewrite (blen_sub _ _ _ Hb) in Hn.
+  destruct ((0 <? len) && _); [discriminate|].
+  pose proof (ncc_np (sub file off len)) as Hn.
   destruct (new_compressed_chunk crc (sub file off len)) as [comp| |]; cbn [bind].
   - destruct (blen comp =? 0); discriminate.
   - discriminate.
-  - exfalso. apply Hn; [lia | reflexivity].
+  - contradiction.
+Qed.
+
+Lemma index_entry_nil_np idx : index_entry_nil t idx <> Panic.
+Proof.
+  unfold index_entry_nil. destruct (ti_count t <=? ord_at t idx) eqn:E; [discriminate|].
+  destruct (get_index_entry_ok (ord_at t idx)) as [e Hg]; [lia|]. rewrite Hg. cbn [bind].
+  destruct (snd e <? 4); discriminate.
 Qed.
 
 Lemma find_offsets_np reqs : forall fi acc, find_offsets t reqs fi acc <> Panic.
@@ -177,85 +148,64 @@ Proof.
   destruct (negb _); [apply IH|].
   match goal with |- context [match_loop ?f t h ?i] => pose proof (match_loop_np f h i) as M; destruct (match_loop f t h i) as [[i'|]| |] end;
     cbn [bind]; try discriminate; [| apply IH | contradiction].
-  destruct (get_index_entry_ok _ (ord_lt _ M)) as [off Hg]. rewrite Hg. cbn [bind]. apply IH.
+  pose proof (index_entry_nil_np i') as Hn.
+  destruct (index_entry_nil t i') as [e| |]; cbn [bind]; [apply IH | discriminate | contradiction].
 Qed.
 
 Lemma get_many_np reqs : get_many t reqs <> GMCrash.
 Proof.
   unfold get_many. pose proof (find_offsets_np (sort_by addr_prefix reqs) 0 []) as F.
-  destruct (find_offsets t _ 0 []) as [recs| |]; try discriminate; [|contradiction].
-  destruct (existsb _ recs); discriminate.
+  destruct (find_offsets t _ 0 []) as [recs| |]; try discriminate. contradiction.
 Qed.
 
-Definition rec_ok (e : N * N * bytes) : Prop := 4 <= snd (fst e) <= iter_buf_size.
-
-Lemma collect_ok k : forall idx, (N.to_nat idx + k <= N.to_nat (ti_count t))%nat ->
-  exists recs, collect t k idx = Ok recs /\ Forall rec_ok recs.
+Lemma index_entry_np idx : index_entry t idx <> Panic.
 Proof.
-  induction k as [|k IH]; intros idx H; cbn [collect].
-  - exists []. split; [reflexivity | constructor].
-  - assert (Hi : idx < ti_count t) by lia.
-    unfold index_entry.
-    destruct (suffix_at_ok _ (ord_lt _ Hi)) as [s Hs]. rewrite Hs. cbn [bind].
-    destruct (get_index_entry_ok _ (ord_lt _ Hi)) as [off Hg]. rewrite Hg. cbn [bind].
-    destruct (IH (idx + 1)) as [r [Hr Fr]]; [lia|]. rewrite Hr. cbn [bind].
-    eexists; split; [reflexivity|]. constructor; [|exact Fr].
-    unfold rec_ok. cbn [fst snd]. apply len_ok, ord_lt, Hi.
+  unfold index_entry. pose proof (suffix_at_inv (ord_at t idx)) as Hs.
+  destruct (suffix_at t (ord_at t idx)) as [s| |]; cbn [bind]; [| discriminate | contradiction].
+  destruct (get_index_entry_ok _ Hs) as [e Hg]. rewrite Hg. cbn [bind].
+  destruct (snd e <? 4); discriminate.
 Qed.
 
-Lemma Forall_insert_by {A} (P : A -> Prop) key x l : P x -> Forall P l -> Forall P (insert_by key x l).
+Lemma collect_np k : forall idx, collect t k idx <> Panic.
 Proof.
-  intros Hx Hl. induction Hl as [|y r Hy Hr IH]; cbn [insert_by].
-  - constructor; [exact Hx | constructor].
-  - destruct (key x <? key y); constructor; try assumption. constructor; assumption.
+  induction k as [|k IH]; intro idx; cbn [collect]; [discriminate|].
+  pose proof (index_entry_np idx) as He.
+  destruct (index_entry t idx) as [e| |]; cbn [bind]; [| discriminate | contradiction].
+  specialize (IH (idx + 1)).
+  destruct (collect t k (idx + 1)) as [r| |]; cbn [bind]; [discriminate | discriminate | contradiction].
 Qed.
 
-Lemma Forall_sort_by {A} (P : A -> Prop) key l : Forall P l -> Forall P (sort_by key l).
+Lemma iter_loop_np file limit recs : forall pos acc, iter_loop crc file limit recs pos acc <> Panic.
 Proof.
-  unfold sort_by. intro H.
-  assert (G : forall acc, Forall P acc -> Forall P (fold_left (fun acc x => insert_by key x acc) l acc)).
-  { induction H as [|x r Hx Hr IH]; intros acc Ha; cbn [fold_left]; [exact Ha|].
-    apply IH. apply Forall_insert_by; assumption. }
-  apply G. constructor.
-Qed.
-
-Lemma iter_loop_np file limit recs : Forall rec_ok recs ->
-  forall pos buf acc, iter_loop crc file limit recs pos buf acc <> Panic.
-Proof.
-  induction 1 as [|[[off len] h] rest Hx Hr IH]; intros pos buf acc; cbn [iter_loop]; [discriminate|].
-  unfold rec_ok in Hx. cbn [fst snd] in Hx.
-  destruct (iter_buf_size <? len) eqn:E; [lia|].
-  match goal with |- context [new_compressed_chunk crc ?b] =>
-    pose proof (ncc_np b) as Hn; rewrite blen_take_pad in Hn; destruct (new_compressed_chunk crc b) as [comp| |] end; cbn [bind].
-  - apply IH.
-  - discriminate.
-  - exfalso. apply Hn; [lia | reflexivity].
+  induction recs as [|[[off len] h] rest IH]; intros pos acc; cbn [iter_loop]; [discriminate|].
+  destruct (_ <? len); [discriminate|].
+  pose proof (ncc_np (sub file pos len)) as Hn.
+  destruct (new_compressed_chunk crc (sub file pos len)) as [comp| |]; cbn [bind]; [apply IH | discriminate | contradiction].
 Qed.
 
 Lemma iterate_np file : iterate crc file t <> Panic.
 Proof.
   unfold iterate. destruct (ti_count t =? 0); [discriminate|].
-  destruct (collect_ok (N.to_nat (ti_count t)) 0) as [recs [Hc Fc]]; [lia|]. rewrite Hc. cbn [bind].
-  apply iter_loop_np. apply Forall_sort_by. exact Fc.
+  pose proof (collect_np (N.to_nat (ti_count t)) 0) as Hc.
+  destruct (collect t _ 0) as [recs| |]; cbn [bind]; [| discriminate | contradiction].
+  apply iter_loop_np.
 Qed.
 
-End Guarded.
+End Table.
 
-(* Under the two consistency conditions parseTableIndex does not check (every ordinal < count,
-   every record length within [checksumSize, 4 MiB]) no read path of an opened table panics —
-   for every file, every claimed count, every address.  A parseTableIndex that rejects an index
-   violating [index_guards] therefore makes the table reader panic free. *)
-Theorem no_panic_table_guarded :
-  forall crc file cnt t, open_table file cnt = Ok t -> index_guards t = true ->
+(* For EVERY index the parser can produce (indeed for every [tindex]), every file content, every
+   address: no read path panics.  The ordinal and length guards are now in the code (and so in the
+   model); nothing is assumed. *)
+Theorem no_panic_table :
+  forall crc file t,
     (forall h, has t h <> Panic) /\ (forall h, get crc file t h <> Panic)
     /\ (forall hs, get_many t hs <> GMCrash) /\ iterate crc file t <> Panic.
 Proof.
-  intros crc file cnt t _ G. unfold index_guards in G. apply andb_true_iff in G as [Go Gl].
-  repeat split.
-  - intro h. apply has_np; assumption.
-  - intro h. apply get_np; assumption.
-  - intro hs. apply get_many_np; assumption.
-  - apply iterate_np; assumption.
+  intros crc file t. repeat split.
+  - intro h. apply has_np.
+  - intro h. apply get_np.
+  - intro hs. apply get_many_np.
+  - apply iterate_np.
 Qed.
 
 (* ---- what a successful lookup hands out -------------------------------------------------- *)
@@ -279,31 +229,32 @@ Qed.
    no_misread_refuted.) *)
 Theorem no_misread_get :
   forall crc file t h comp, get crc file t h = Ok (Some comp) ->
-    exists idx off len, designated t h idx /\ ord_at t idx <> ti_count t
+    exists idx off len, designated t h idx /\ ord_at t idx < ti_count t
       /\ get_index_entry t (ord_at t idx) = Ok (off, len) /\ record_at crc file off len comp.
 Proof.
   intros crc file t h comp. unfold get, lookup.
   destruct (match_loop _ t h _) as [[i|]| |] eqn:M; cbn [bind]; try discriminate.
+  pose proof (match_loop_np t (N.to_nat (ti_count t)) h (find_prefix t (addr_prefix h))) as Mo. rewrite M in Mo.
   apply match_loop_sound in M.
   destruct (ord_at t i =? ti_count t) eqn:Ec; cbn [bind]; [discriminate|].
   destruct (get_index_entry t (ord_at t i)) as [[off len]| |] eqn:G; cbn [bind]; try discriminate.
+  cbn [snd]. destruct (len <? 4) eqn:El; cbn [bind]; [discriminate|].
   destruct ((0 <? len) && ((blen file <? off + len) || (9223372036854775808 <=? off))) eqn:E; [discriminate|].
   unfold new_compressed_chunk.
   destruct (blen (sub file off len) <? 4) eqn:E4; cbn [bind]; [discriminate|].
   destruct (be _ =? crc _) eqn:Ecrc; cbn [bind]; [|discriminate].
   destruct (blen _ =? 0); [discriminate|].
   intro H. injection H as <-.
-  assert (Hl : 4 <= len).
-  { unfold blen, sub in E4. rewrite firstn_length in E4. lia. }
+  assert (Hl : 4 <= len) by lia.
   assert (Hb : off + len <= blen file).
   { apply andb_false_iff in E as [E | E]; [lia|]. apply orb_false_iff in E as [E1 E2]. lia. }
   rewrite (blen_sub _ _ _ Hb) in *.
   apply N.eqb_eq in Ecrc.
-  exists i, off, len. split; [exact M|]. split; [lia|]. split; [exact G|].
+  exists i, off, len. split; [exact M|]. split; [exact Mo|]. split; [exact G|].
   unfold record_at. split; [exact Hb|]. split; [exact Hl|]. split; [reflexivity | exact Ecrc].
 Qed.
 
-(* ---- refutations: concrete files on which today's reader panics / misreads ------------- *)
+(* ---- regression examples: the witnesses that used to panic (F3) are errors now ---------- *)
 
 Definition set_at (b : bytes) (pos : nat) (v : bytes) : bytes := firstn pos b ++ v ++ skipn (pos + length v) b.
 
@@ -320,24 +271,34 @@ Definition w_len_lt4 : bytes := set_at w_file 70 [0; 0; 0; 2].            (* len
 Definition w_ord_gt : bytes := set_at w_file 54 [0; 0; 0; 9].             (* ordinal of tuple 1 (address w_addr0) := 9 *)
 Definition w_len_big : bytes := set_at w_file 70 [0; 80; 0; 2].           (* length[0] := 5242882 > 4 MiB *)
 
-Example w_file_reads_back :
-  exists t, open_table w_file 3 = Ok t /\ index_guards t = true
-            /\ get crc32c w_file t w_addr0 = Ok (Some [5; 16; 1; 2; 3; 4; 5]).
-Proof. eexists. split; [vm_compute; reflexivity|]. split; [vm_compute; reflexivity | vm_compute; reflexivity]. Qed.
 
-(* no_panic for the table reader is FALSE today: F3 *)
-Theorem no_panic_table_refuted :
-  (exists file cnt t h, open_table file cnt = Ok t /\ get crc32c file t h = Panic)
-  /\ (exists file cnt t h, open_table file cnt = Ok t /\ has t h = Panic)
-  /\ (exists file cnt t, open_table file cnt = Ok t /\ iterate crc32c file t = Panic)
-  /\ (exists file cnt t h, open_table file cnt = Ok t /\ get_many t [h] = GMCrash).
-Proof.
-  split; [|split; [|split]].
-  - exists w_len_lt4, 3. eexists. exists w_addr0. split; [vm_compute; reflexivity | vm_compute; reflexivity].
-  - exists w_ord_gt, 3. eexists. exists w_addr0. split; [vm_compute; reflexivity | vm_compute; reflexivity].
-  - exists w_len_big, 3. eexists. split; [vm_compute; reflexivity | vm_compute; reflexivity].
-  - exists w_ord_gt, 3. eexists. exists w_addr0. split; [vm_compute; reflexivity | vm_compute; reflexivity].
-Qed.
+Example w_file_reads_back :
+  exists t, open_table w_file 3 = Ok t
+            /\ get crc32c w_file t w_addr0 = Ok (Some [5; 16; 1; 2; 3; 4; 5]).
+Proof. eexists. split; [vm_compute; reflexivity | vm_compute; reflexivity]. Qed.
+
+(* length entry < checksumSize: was a slice panic in NewCompressedChunk, now ErrInvalidTableFile *)
+Example regression_length_lt_checksum :
+  exists t, open_table w_len_lt4 3 = Ok t /\ get crc32c w_len_lt4 t w_addr0 = Err
+            /\ iterate crc32c w_len_lt4 t = Err /\ get_many t [w_addr0] = GMNoCrash.
+Proof. eexists. split; [vm_compute; reflexivity|]. split; [vm_compute; reflexivity|]. split; vm_compute; reflexivity. Qed.
+
+(* ordinal > count: was a slice panic in entrySuffixMatches / indexEntry, now ErrInvalidTableFile *)
+Example regression_ordinal_ge_count :
+  exists t, open_table w_ord_gt 3 = Ok t /\ has t w_addr0 = Err /\ get crc32c w_ord_gt t w_addr0 = Err
+            /\ iterate crc32c w_ord_gt t = Err /\ get_many t [w_addr0] = GMNoCrash.
+Proof. eexists. split; [vm_compute; reflexivity|]. split; [vm_compute; reflexivity|]. split; [vm_compute; reflexivity|]. split; vm_compute; reflexivity. Qed.
+
+(* length entry > 4 MiB: was a slice panic on the iteration's scratch buffer, now a read error *)
+Example regression_length_gt_iter_buffer :
+  exists t, open_table w_len_big 3 = Ok t /\ iterate crc32c w_len_big t = Err.
+Proof. eexists. split; [vm_compute; reflexivity | vm_compute; reflexivity]. Qed.
+
+(* STILL unguarded: hashAt (table_index.go:444-453, reached from ResolveShortHash :600) slices
+   ti.suffixes with the tuple's ordinal without comparing it with count. *)
+Theorem hash_at_refuted :
+  exists file cnt t idx, open_table file cnt = Ok t /\ idx < ti_count t /\ hash_at t idx = Panic.
+Proof. exists w_ord_gt, 3. eexists. exists 1. split; [vm_compute; reflexivity|]. split; vm_compute; reflexivity. Qed.
 
 (* two 6-byte chunks of equal compressed length; in s_file' the two records are exchanged *)
 Definition s_file : bytes :=
@@ -362,9 +323,42 @@ Proof.
   split; [vm_compute; reflexivity|]. split; [vm_compute; reflexivity|]. split; [vm_compute; reflexivity | vm_compute; reflexivity].
 Qed.
 
+
+(* one flipped byte in a suffix of the index (the index has no checksum): the iteration delivers
+   the same three payloads, one of them under a different address than before — an address its
+   content does not hash to *)
+Definition w_suffix_flip : bytes := set_at w_file 117 [146].
+
+Theorem iterate_mislabel_refuted :
+  exists f f' cnt t t' l l',
+    open_table f cnt = Ok t /\ open_table f' cnt = Ok t'
+    /\ iterate crc32c f t = Ok l /\ iterate crc32c f' t' = Ok l'
+    /\ map snd l = map snd l' /\ map fst l <> map fst l'.
+Proof.
+  exists w_file, w_suffix_flip, 3. eexists. eexists. eexists. eexists.
+  split; [vm_compute; reflexivity|]. split; [vm_compute; reflexivity|].
+  split; [vm_compute; reflexivity|]. split; [vm_compute; reflexivity|].
+  split; [vm_compute; reflexivity | vm_compute; discriminate].
+Qed.
+
 (* =====================================================================
    journal records
    ===================================================================== *)
+
+Lemma read_fields_np fuel : forall buf r, read_fields fuel buf r <> Panic.
+Proof.
+  induction fuel as [|f IH]; intros buf r; cbn [read_fields]; [discriminate|].
+  destruct (blen buf <=? 4); [destruct (blen buf <? 4); discriminate|].
+  destruct buf as [|tag b]; [discriminate|].
+  destruct (tag =? 1); [destruct (blen b <? 1); [discriminate | apply IH]|].
+  destruct (tag =? 2); [destruct (blen b <? 20); [discriminate | apply IH]|].
+  destruct (tag =? 4); [destruct (blen b <? 8); [discriminate | apply IH]|].
+  destruct (tag =? 3); [apply IH | discriminate].
+Qed.
+
+(* readJournalRecord never panics, whatever the bytes (every field read is length-checked now) *)
+Lemma read_journal_record_np buf : read_journal_record buf <> Panic.
+Proof. unfold read_journal_record. apply read_fields_np. Qed.
 
 Section Journal.
 Variable crc : bytes -> N.
@@ -378,6 +372,8 @@ Proof.
   destruct (_ =? _); discriminate.
 Qed.
 
+(* the scanner and the data-loss check always hand validateJournalRecord a buffer whose length is
+   its own length field: the uint32 underflow in there cannot be reached from a file *)
 Lemma validate_sub_np data off l : off + l <= blen data -> l = be (sub data off 4) ->
   validate_journal_record crc (sub data off l) <> Panic.
 Proof.
@@ -385,14 +381,6 @@ Proof.
   destruct (N.lt_ge_cases l 8) as [H8 | H8]; [left; exact H8 | right].
   rewrite sub_sub_prefix by lia. exact Hl.
 Qed.
-
-(* the only way a journal scan can panic: a record whose checksum validates but whose fields
-   run past its end.  [fields_wf] says no CRC-valid record is like that — true of every record
-   the writer produces; for foreign bytes it is the crc_detects assumption made explicit. *)
-Definition fields_wf : Prop :=
-  forall buf, validate_journal_record crc buf = Ok tt -> read_journal_record buf <> Panic.
-
-Hypothesis Hwf : fields_wf.
 
 Lemma scan_loop_np fuel data : forall off acc, scan_loop crc fuel data off acc <> Panic.
 Proof.
@@ -403,7 +391,8 @@ Proof.
   destruct (blen data - off <? be (sub data off 4)) eqn:E1; [discriminate|].
   pose proof (validate_sub_np data off (be (sub data off 4))) as V.
   destruct (validate_journal_record crc _) as [[]| |] eqn:Ev.
-  - destruct (read_journal_record _) eqn:Er; [apply IH | discriminate | exfalso; exact (Hwf _ Ev Er)].
+  - pose proof (read_journal_record_np (sub data off (be (sub data off 4)))) as R.
+    destruct (read_journal_record _); [apply IH | discriminate | contradiction].
   - discriminate.
   - exfalso. apply V; [lia | reflexivity | reflexivity].
 Qed.
@@ -411,20 +400,24 @@ Qed.
 Lemma loss_loop_np fuel buf : forall idx fr, loss_loop crc fuel buf idx fr <> Panic.
 Proof.
   induction fuel as [|f IH]; intros idx fr; cbn [loss_loop]; [discriminate|].
-  destruct (blen buf <? idx + 40) eqn:E0; [discriminate|].
+  destruct (blen buf <? idx + root_hash_record_size) eqn:E0; [discriminate|].
   destruct ((0 <? be (sub buf idx 4)) && (be (sub buf idx 4) <=? journal_buff_size) && (be (sub buf idx 4) <=? blen buf - idx)) eqn:E; [|apply IH].
   apply andb_true_iff in E as [E E3]. apply andb_true_iff in E as [E1 E2].
   pose proof (validate_sub_np buf idx (be (sub buf idx 4))) as V.
+  unfold root_hash_record_size in E0.
   destruct (validate_journal_record crc _) as [[]| |] eqn:Ev.
-  - destruct (read_journal_record _) as [r| |] eqn:Er.
+  - pose proof (read_journal_record_np (sub buf idx (be (sub buf idx 4)))) as R.
+    destruct (read_journal_record _) as [r| |].
     + destruct fr; [discriminate | apply IH].
     + discriminate.
-    + exfalso. exact (Hwf _ Ev Er).
+    + contradiction.
   - apply IH.
   - exfalso. apply V; [lia | reflexivity | reflexivity].
 Qed.
 
-Theorem no_panic_journal_scan_wf : forall data, scan_journal crc data <> Panic.
+(* For EVERY byte string and every checksum function: scanning a journal (record scan, then the
+   data-loss resynchronisation over the rest) never panics.  No CRC assumption is needed any more. *)
+Theorem no_panic_journal_scan : forall data, scan_journal crc data <> Panic.
 Proof.
   intro data. unfold scan_journal.
   pose proof (scan_loop_np (S (length data)) data 0 []) as Hs.
@@ -436,22 +429,22 @@ Qed.
 
 End Journal.
 
-(* records produced by the writer satisfy fields_wf's conclusion: a root record and a chunk record *)
-Example writer_records_read_back :
-  read_journal_record ([0; 0; 0; 40; 1; 1; 4; 0; 0; 0; 0; 0; 0; 0; 9; 2] ++ repeat 7 20 ++ [1; 2; 3; 4]) <> Panic
-  /\ read_journal_record ([0; 0; 0; 36; 1; 2; 2] ++ repeat 7 20 ++ [3; 9; 9; 9; 9; 9; 1; 2; 3; 4]) <> Panic.
-Proof. split; vm_compute; discriminate. Qed.
-
-(* a 10-byte record: length, address tag, one byte, valid CRC32C *)
+(* a 10-byte record: length, address tag, one byte, valid CRC32C — used to panic in
+   readJournalRecord (buf[journalRecAddrSz:]); now the scan stops with an error *)
 Definition j_short_addr : bytes := [0; 0; 0; 10; 2; 1] ++ enc_be 4 (crc32c [0; 0; 0; 10; 2; 1]).
+Definition j_short_ts : bytes := [0; 0; 0; 12; 4; 1; 2; 3] ++ enc_be 4 (crc32c [0; 0; 0; 12; 4; 1; 2; 3]).
 
-(* without the assumption the scan DOES panic: journal bytes holding a checksummed record whose
-   address field is cut short crash readJournalRecord (buf[journalRecAddrSz:]) at startup *)
-Theorem no_panic_journal_refuted : exists data, scan_journal crc32c data = Panic.
-Proof. exists j_short_addr. vm_compute. reflexivity. Qed.
+Example regression_journal_short_field :
+  scan_journal crc32c j_short_addr = Ok ([], 0, JErr) /\ scan_journal crc32c j_short_ts = Ok ([], 0, JErr).
+Proof. split; vm_compute; reflexivity. Qed.
 
-(* validateJournalRecord alone underflows on a length field < 4; every caller passes
-   len(buf) = length field, so this is latent (not reachable from a file) *)
+Example writer_records_read_back :
+  (exists r, read_journal_record ([0; 0; 0; 40; 1; 1; 4; 0; 0; 0; 0; 0; 0; 0; 9; 2] ++ repeat 7 20 ++ [1; 2; 3; 4]) = Ok r /\ j_kind r = 1)
+  /\ (exists r, read_journal_record ([0; 0; 0; 36; 1; 2; 2] ++ repeat 7 20 ++ [3; 9; 9; 9; 9; 9; 1; 2; 3; 4]) = Ok r /\ j_payload r = Some [9; 9; 9; 9; 9]).
+Proof. split; eexists; split; vm_compute; reflexivity. Qed.
+
+(* validateJournalRecord alone still underflows on a length field < 4 (journal_record.go:257);
+   every caller passes len(buf) = length field (validate_sub_np), so no file reaches it *)
 Theorem journal_validate_latent_underflow : exists buf, validate_journal_record crc32c buf = Panic.
 Proof. exists [0; 0; 0; 0; 0; 0; 0; 0]. vm_compute. reflexivity. Qed.
 
@@ -459,27 +452,22 @@ Proof. exists [0; 0; 0; 0; 0; 0; 0; 0]. vm_compute. reflexivity. Qed.
    manifest
    ===================================================================== *)
 
-(* For every byte string: the manifest parser panics only through hash.Parse on the root field,
-   i.e. only when the root hash string (3rd field after the version) is not 32 base32 characters *)
-Theorem manifest_panic_only_root :
-  forall s, parse_manifest s = Panic ->
-    exists vers rest, read_version 8 s [] = Some (vers, rest)
-      /\ valid_hash_str (nth 2 (split_on colon rest) []) = false.
+(* For EVERY byte string the manifest parser returns contents or an error; it never panics *)
+Theorem no_panic_manifest : forall s, parse_manifest s <> Panic.
 Proof.
   intros s. unfold parse_manifest.
   destruct (read_version 8 s []) as [[vers rest]|]; [|discriminate].
-  intro H. exists vers, rest. split; [reflexivity|]. revert H.
   destruct (beq_bytes vers [53]).
   - destruct (_ || _); [discriminate|].
     destruct (parse_specs _); [|discriminate].
     destruct (negb (valid_hash_str (nth 1 (split_on colon rest) []))); [discriminate|].
     destruct (negb (valid_hash_str (nth 3 (split_on colon rest) []))); [discriminate|].
-    destruct (valid_hash_str (nth 2 (split_on colon rest) [])); cbn [negb]; [discriminate | intros _; reflexivity].
+    destruct (negb (valid_hash_str (nth 2 (split_on colon rest) []))); discriminate.
   - destruct (beq_bytes vers [52]); [|discriminate].
     destruct (_ || _); [discriminate|].
     destruct (parse_specs _); [|discriminate].
     destruct (negb (valid_hash_str (nth 1 (split_on colon rest) []))); [discriminate|].
-    destruct (valid_hash_str (nth 2 (split_on colon rest) [])); cbn [negb]; [discriminate | intros _; reflexivity].
+    destruct (negb (valid_hash_str (nth 2 (split_on colon rest) []))); discriminate.
 Qed.
 
 Definition h32 : bytes := repeat 48 32.
@@ -490,6 +478,31 @@ Example manifest_parses : exists m, parse_manifest ([53; 58; 95; 95; 68; 79; 76;
                                     /\ m_specs m = [(h32, 7)].
 Proof. eexists. split; [vm_compute; reflexivity | vm_compute; reflexivity]. Qed.
 
-(* no_panic for the manifest parser is FALSE today: a manifest whose root hash has one bad character *)
-Theorem no_panic_manifest_refuted : exists s, parse_manifest s = Panic.
-Proof. exists m_bad_root. vm_compute. reflexivity. Qed.
+(* one bad character in the root hash: used to panic in hash.Parse, now an error *)
+Example regression_manifest_bad_root : parse_manifest m_bad_root = Err.
+Proof. vm_compute. reflexivity. Qed.
+
+(* =====================================================================
+   the model never violates the no-crash half of the oracle
+   ===================================================================== *)
+
+Theorem oracle_model : forall i, oracle i (model_obs i) = true.
+Proof.
+  intros [file cnt addrs | data | data]; unfold oracle, model_obs.
+  - unfold table_obs. pose proof (no_panic_open_table file cnt) as Ho.
+    destruct (open_table file cnt) as [t| |]; [| reflexivity | contradiction].
+    cbn [o_open o_res o_iter o_gm o_class].
+    assert (Hr : forallb (fun r : N * N => negb (fst r =? 2) && negb (snd r =? 2) && negb (snd r =? 4))
+                   (map (fun h => (has_code (has t h), get_code (get crc32c file t h))) addrs) = true).
+    { apply forallb_forall. intros r Hin. apply in_map_iff in Hin as [h [<- _]]. cbn [fst snd].
+      pose proof (has_np t h) as H1. pose proof (get_np crc32c t file h) as H2.
+      destruct (has t h) as [[]| |]; destruct (get crc32c file t h) as [[?|]| |]; try contradiction; reflexivity. }
+    rewrite Hr.
+    pose proof (iterate_np crc32c t file) as Hi. pose proof (get_many_np t addrs) as Hg.
+    destruct (iterate crc32c file t); [| | contradiction]; destruct (get_many t addrs); try contradiction; reflexivity.
+  - unfold journal_obs. pose proof (no_panic_journal_scan crc32c data) as Hj.
+    destruct (scan_journal crc32c data) as [[[recs off] cl]| |]; [| reflexivity | contradiction].
+    destruct cl; reflexivity.
+  - unfold manifest_obs. pose proof (no_panic_manifest data) as Hm.
+    destruct (parse_manifest data); [reflexivity | reflexivity | contradiction].
+Qed.
